@@ -1,0 +1,6 @@
+//go:build !verif
+
+package util
+
+// VerifDelayMs is a verification hook, without the build tag "verif" it returns its argument
+func VerifDelayMs(ms int) int { return ms }
